@@ -653,15 +653,25 @@ def _task_proxy(_):
          (['v', 3],)),
     ]
     for declared, (path, iface, member, sig, body), want in cases:
-        for cancel_first in (False, True):
+        for cancel_first in (False, True, 'shadowed'):
             res.count('states')
             res.count('transitions')
             res.count('evaluations')
             res.count('traces')
             res.count('nontrivial')
             cw = fakes.ClientWorld()
+            ki = None
             try:
                 cw.sent()
+                if cancel_first == 'shadowed':
+                    # the process knows another definition under the same
+                    # interface name (other signature for the signal); the
+                    # proxy is given its own interface object
+                    cancel_first = False
+                    ki = fakes.KnownInterfaces().__enter__()
+                    I.DBusInterface('org.ex.S', I.Signal(
+                        'Sig', 'u' if declared != 'u' else 's'),
+                        I.Signal('Other', 's'))
                 ifc = I.DBusInterface('org.ex.S', I.Signal('Sig', declared),
                                       noRegister=True)
                 got = []
@@ -722,6 +732,8 @@ def _task_proxy(_):
                               {'part': 'proxy'}, size=1)
             finally:
                 cw.close()
+                if ki is not None:
+                    ki.__exit__()
     # the signal bytes written by the library's own emitter (emitSignal of
     # an exported object on another connection) instead of the reference
     # encoder's
